@@ -11,7 +11,7 @@ FUNCS = ["every rule action of lexer.l (line counting)", "qput", "qend", "qstr",
 def build_obs(tier, tables):
     obs = lex_step_obs(tables, ["CHK_C06"], tier, "c06lex", windows=[4] if tier == "quick" else [4, 6], checks="none",
                        variants=("null", "fill2", "fill5"))
-    obs += parse_step_obs(["CHK_C06", "CHK_C01"], "c06par", states=range(0, 16), callbacks=False, tier=tier)
+    obs += parse_step_obs(["CHK_C06", "CHK_C01"], "c06par", states=range(0, 16), callbacks=True, tier=tier)
     return obs
 
 
